@@ -72,6 +72,8 @@ type Plan struct {
 	Level      string `json:"level"`
 	Race       bool   `json:"race"`
 	RaceEvery  int    `json:"race_every"` // > 0: every RaceEvery-th run uses the -race build
+	RaceFrom   int    `json:"race_from"`  // > 0: runs with RaceFrom <= idx < RaceTo use the -race build
+	RaceTo     int    `json:"race_to"`
 }
 
 type ReplayFile struct {
@@ -396,11 +398,13 @@ func main() {
 			*budget = 12 * time.Minute
 		}
 	}
-	useRace := func(idx int) bool { return plan.Race || plan.RaceEvery > 0 && idx%plan.RaceEvery == plan.RaceEvery-1 }
+	useRace := func(idx int) bool {
+		return plan.Race || plan.RaceEvery > 0 && idx%plan.RaceEvery == plan.RaceEvery-1 || plan.RaceFrom > 0 && idx >= plan.RaceFrom && idx < plan.RaceTo
+	}
 	if *prop != "" && *prop != "C13" {
 		raceOracle = *prop + ".race"
 	}
-	if (plan.Race || plan.RaceEvery > 0) && raceBin == "" {
+	if (plan.Race || plan.RaceEvery > 0 || plan.RaceFrom > 0) && raceBin == "" {
 		fmt.Println("HARNESS-ERROR plan wants the race build but no -racebin given")
 		os.Exit(2)
 	}
